@@ -240,7 +240,7 @@ func (Op Divp) Op_instruction_verilog_extra_modules(arch *Arch, flavor string) (
 	result += "  input     [" + strconv.Itoa(int(arch.Rsize)-1) + ":0] input_a;\n"
 	result += "  input     [" + strconv.Itoa(int(arch.Rsize)-1) + ":0] input_b;\n"
 	result += "  output    [" + strconv.Itoa(int(arch.Rsize)-1) + ":0] output_z;\n"
-	result += "  assign output_z = input_a * input_b;\n"
+	result += "  assign output_z = input_a / input_b;\n"
 	result += "\n"
 	result += "endmodule\n"
 
